@@ -81,7 +81,7 @@ DECL___check_key_bits(contract_all___check_key_bits, C09_KEYBITS_CLAUSES C02_KEY
 #define DECL_jwt_sign(NAME, P, CLAUSES) \
 int NAME(jwt_t *jwt, char **out, unsigned int *len, const char *str, unsigned int str_len) \
 CHK_COMMON_REQ(jwt) \
-__CPROVER_requires(__CPROVER_is_fresh(out, sizeof(*out)) && __CPROVER_is_fresh(len, sizeof(*len))) \
+__CPROVER_requires(__CPROVER_is_fresh(out, sizeof(*out)) && __CPROVER_is_fresh(len, sizeof(*len)) && *out == NULL) \
 __CPROVER_requires(OPS_TABLE_OBEYS(P)) \
 __CPROVER_assigns(*out, *len, jwt->error, SPEC_ERRMSG_FRAME(jwt), OPS_GHOST_ASSIGNS_SIGN) \
 __CPROVER_ensures(__CPROVER_return_value == 0 || __CPROVER_return_value == 1) \
@@ -97,7 +97,7 @@ __CPROVER_ensures((__CPROVER_return_value == 0 && SPEC_IS_HS(jwt->alg)) ==> \
 	 *len == (unsigned int)SPEC_HASH_BITS(jwt->alg) / 8)) \
 __CPROVER_ensures((__CPROVER_return_value == 0 && !SPEC_IS_HS(jwt->alg)) ==> \
 	(g_sgn_done == 1 && OPS_KEYMAT_OF(jwt, g_sgn_keymat) && g_sgn_data == str && g_sgn_len == str_len && \
-	 g_sgn_hash == SPEC_HASH_BITS(jwt->alg) && g_sgn_pss == SPEC_IS_PS(jwt->alg) && \
+	 (SPEC_IS_ED(jwt->alg) || g_sgn_hash == SPEC_HASH_BITS(jwt->alg)) && g_sgn_pss == SPEC_IS_PS(jwt->alg) && \
 	 (SPEC_IS_ES(jwt->alg) ==> *len == 2 * SPEC_EC_N(jwt->key->bits)))) \
 CLAUSES
 #define C09_FLOOR_OK(jwt) (SPEC_HMAC_OK((jwt)->alg, (jwt)->key->bits) || SPEC_ASYM_OK((jwt)->alg, (jwt)->key->bits))
